@@ -197,6 +197,8 @@ def run_c12(prop, spec, tier, seed, args):
 
 # ------------------------------------------------------------------------------------------ C20
 PARSE_SRC = re.compile(r"(^|[^A-Za-z0-9_])(from_reader|from_str|from_slice|from_value)::<[^()]*SetSketchParams")
+TRUNC_SRC = re.compile(r"OpenOptions::truncate|File::create\b|File::create_new\b|File::set_len|fs::write\b|fs::rename\b|(^|[^A-Za-z0-9_])rename\b")
+WRITE_SINK = re.compile(r"(^|[^A-Za-z0-9_])(to_writer|to_writer_pretty|write_all|write_fmt)\b|Write>?::write\b")
 UNWRAPS = re.compile(r"Result::<[^(]*>::(unwrap|expect|unwrap_or|unwrap_or_default|unwrap_or_else|unwrap_unchecked|expect_err)\b|Option::<[^(]*>::(unwrap|expect)\b")
 
 
@@ -229,17 +231,39 @@ def run_c20(prop, spec, tier, seed, args):
             # the parse call must exist (otherwise the obligation list is vacuous)
             has_parse = bool(PARSE_SRC.search(f.body))
             results.append({"obligation": "reload_json parses the file with serde_json (vacuity guard)", "verdict": "holds" if has_parse else "inconclusive", "solvers": []})
+        # dump side: the writer that receives the JSON text must come from a truncating open (otherwise a dump over
+        # an older, longer file leaves a tail and the reload fails although no crash happened)
+        tclauses, tfacts = T.analyse(fns, lambda callee, a, f: f.short == "dump_json" and bool(TRUNC_SRC.search(callee)) and not re.search(r"truncate\(.*const false", callee + "(" + a), "truncating-open")
+        stale = []
+        for fi, f in enumerate(fns):
+            if f.short != "dump_json":
+                continue
+            k = 0
+            for m in re.finditer(r"^\s*(_\d+) = (.*?)\((.*)\) -> \[return", f.body, re.M):
+                if not WRITE_SINK.search(m.group(2)):
+                    continue
+                a = T.base_locals(m.group(3))[:1]
+                for a0 in a:
+                    verdict, answers = T.entailed(tclauses, tfacts, "f%d%s" % (fi, a0), work, "c20t_%d" % k)
+                    k += 1
+                    r = {"obligation": "the writer passed to `%s` in dump_json derives from a truncating open (OpenOptions::truncate(true) / File::create / set_len / rename)" % re.sub(r"::<.*$", "", m.group(2)).split("::")[-1],
+                         "verdict": {"entailed": "holds", "not-entailed": "NOT-TRUNCATED", "inconclusive": "inconclusive"}[verdict], "solvers": answers}
+                    results.append(r)
+                    if verdict == "not-entailed":
+                        stale.append(r)
+            if k == 0:
+                results.append({"obligation": "dump_json writes through a serde_json/io writer call (vacuity guard of the truncation obligation)", "verdict": "inconclusive", "solvers": []})
         vlines, undec = [], []
         native_note = ""
         guard_bad = any(r["verdict"] == "inconclusive" for r in results)
-        if findings or tier == "thorough" or guard_bad:
+        if findings or stale or tier == "thorough" or guard_bad:
             exe, err = build_native("c20", work)
             if exe:
                 td = tempfile.mkdtemp(prefix="pmhv-c20d-", dir=pmhv.SCRATCH_ROOT)
                 p = subprocess.run([exe, td], stdout=subprocess.PIPE, stderr=subprocess.STDOUT, text=True, timeout=600)
                 shutil.rmtree(td, ignore_errors=True)
-                bad = [l for l in p.stdout.splitlines() if l.startswith(("PANIC", "OK-DIFFERENT"))]
-                native_note = "native/c20: %d of the prefixes (and the missing file) are not reported as Err: %s" % (len(bad), "; ".join(bad[:4]))
+                bad = [l for l in p.stdout.splitlines() if l.startswith(("PANIC", "OK-DIFFERENT", "STALE"))]
+                native_note = "native/c20: %d of the prefixes (and the missing file) are not reported as Err, or a dump over an older longer file does not reload: %s" % (len(bad), "; ".join(bad[:4]))
                 if bad:
                     rd = os.path.join(pmhv.REPLAY_DIR, prop)
                     os.makedirs(rd, exist_ok=True)
@@ -248,6 +272,8 @@ def run_c20(prop, spec, tier, seed, args):
                         fh.write(p.stdout)
                     vlines.append("VIOLATION property=%s replay=%s" % (prop, rp))
                     vlines.append("  " + native_note[:300])
+                elif stale:
+                    undec.append("no truncating open reaches the writer of dump_json on the MIR data-flow graph, but a dump over an older, longer file reloads natively")
                 elif findings:
                     undec.append("an unwrap-family call consumes the parse result on the MIR data-flow graph, but every prefix of the file is reported as Err natively")
             else:
@@ -258,8 +284,8 @@ def run_c20(prop, spec, tier, seed, args):
         ev = {
             "property_id": prop, "tier": tier, "seed": seed, "level": "other",
             "coverage": {
-                "explanation": "Error-path clause only. The MIR of the current tree is turned into data-flow implications (lib/smt_taint.py) and z3/cvc5 decide, per unwrap-family call in reload_json, whether the Result of the serde_json parse call is entailed to reach it (a torn file makes that Result an Err, so reaching an unwrap = abort, reaching unwrap_or* = different parameters). "
-                               "A reached sink is confirmed natively by reloading every prefix of a dumped file (native/c20) before it is reported. NOT decided: the value round trip (ryu printing / serde_json float parsing on symbolic f64 are out of reach of both engines).",
+                "explanation": "Error-path clause and the truncating open of the dump. The MIR of the current tree is turned into data-flow implications (lib/smt_taint.py) and z3/cvc5 decide, per unwrap-family call in reload_json, whether the Result of the serde_json parse call is entailed to reach it (a torn file makes that Result an Err, so reaching an unwrap = abort, reaching unwrap_or* = different parameters). "
+                               "On the dump side the solvers decide whether a truncating open (OpenOptions::truncate(true), File::create, set_len, rename) is entailed to reach the writer that receives the JSON text. A reached unwrap / a missing truncation is confirmed natively (native/c20: reload of every prefix of a dumped file; dump over an older, longer file, then reload) before it is reported. NOT decided: the value round trip (ryu printing / serde_json float parsing on symbolic f64 are out of reach of both engines).",
                 "evaluations": len(results), "distinct_nontrivial": max(2, len(results)) if len(results) >= 2 else len(results),
                 "samples": results, "obligations": len(results), "discharged": sum(1 for r in results if r["verdict"] == "holds"),
                 "native_confirmation": native_note,
